@@ -126,7 +126,7 @@ from ...ast.fpyast import (
     WhileStmt,
     Zip,
 )
-from ...ast.visitor import Visitor
+from ...ast.visitor import DefaultVisitor, Visitor
 from ...function import Function
 from ...number import (
     REAL,
@@ -268,6 +268,57 @@ class _TupleAccess:
     s: str
     ty: CppType
     off: int | None
+
+
+def _names_in(e: Expr) -> tuple[set, set]:
+    """The variable names an expression reads, and those it reads an element of."""
+    out: set = set()
+    indexed: set = set()
+
+    class _Uses(DefaultVisitor):
+        def _visit_var(self, v: Var, ctx):
+            out.add(v.name)
+
+        def _visit_list_ref(self, r: ListRef, ctx):
+            root = r.value
+            while isinstance(root, ListRef):
+                root = root.value
+            if isinstance(root, Var):
+                indexed.add(root.name)
+            super()._visit_list_ref(r, ctx)
+
+    _Uses()._visit_expr(e, None)
+    return out, indexed
+
+
+def _names_bound_in(block: StmtBlock) -> tuple[set, set]:
+    """The names a block may rebind, and those whose elements it may store into."""
+    out: set = set()
+    stored: set = set()
+
+    def bind(t):
+        if isinstance(t, NamedId):
+            out.add(t)
+        elif isinstance(t, TupleBinding):
+            for x in t.elts:
+                bind(x)
+
+    class _Defs(DefaultVisitor):
+        def _visit_assign(self, stmt: Assign, ctx):
+            bind(stmt.target)
+            super()._visit_assign(stmt, ctx)
+
+        def _visit_indexed_assign(self, stmt: IndexedAssign, ctx):
+            if isinstance(stmt.var, NamedId):
+                stored.add(stmt.var)
+            super()._visit_indexed_assign(stmt, ctx)
+
+        def _visit_for(self, stmt: ForStmt, ctx):
+            bind(stmt.target)
+            super()._visit_for(stmt, ctx)
+
+    _Defs()._visit_block(block, None)
+    return out, stored
 
 
 class _IndentedWriter:
@@ -3684,8 +3735,30 @@ class CppEmitter(Visitor):
                     at=stmt,
                 )
 
+    def _loop_bound(self, e: Expr, body: 'StmtBlock | None', ctx) -> str:
+        """A ``range`` bound as the loop test may name it on every iteration.
+
+        ``range(n)`` is evaluated once, when the loop is entered, while a C-style
+        test re-reads its operand each time round -- so a bound mentioning a name
+        the body rebinds (``for i in range(n): n = n - 1``, or ``range(len(xs))``
+        with ``xs`` rebound) is snapshotted into a ``const`` temporary first.
+        Anything the body cannot change is named directly, as before.
+        """
+        code = self._visit_expr(e, ctx)
+        if body is None or isinstance(e, RationalVal):
+            return code
+        used, indexed = _names_in(e)
+        rebound, stored = _names_bound_in(body)
+        # a store `xs[i] = v` leaves `len(xs)` alone; it only matters to a bound
+        # that reads an element
+        if not (used & rebound or indexed & stored):
+            return code
+        tmp = self._fresh_temp()
+        self.writer.add_line(f'const auto {tmp} = {code};')
+        return tmp
+
     def _for_header(self, iterable: Expr, target: str, decl: str,
-                    target_def, ctx) -> str:
+                    target_def, ctx, body: 'StmtBlock | None' = None) -> str:
         """The ``for (...)`` header for *iterable*, without the brace.
 
         A ``Range*`` is a counter loop using *decl* as given; anything else is a
@@ -3697,19 +3770,19 @@ class CppEmitter(Visitor):
         """
         match iterable:
             case Range1():
-                stop = self._visit_expr(iterable.arg, ctx)
+                stop = self._loop_bound(iterable.arg, body, ctx)
                 return f'for ({decl} = 0; {target} < {stop}; ++{target})'
             case Range2():
                 start = self._visit_expr(iterable.first, ctx)
-                stop = self._visit_expr(iterable.second, ctx)
+                stop = self._loop_bound(iterable.second, body, ctx)
                 return (
                     f'for ({decl} = {start}; '
                     f'{target} < {stop}; ++{target})'
                 )
             case Range3():
                 start = self._visit_expr(iterable.args[0], ctx)
-                stop = self._visit_expr(iterable.args[1], ctx)
-                step = self._visit_expr(iterable.args[2], ctx)
+                stop = self._loop_bound(iterable.args[1], body, ctx)
+                step = self._loop_bound(iterable.args[2], body, ctx)
                 return (
                     f'for ({decl} = {start}; '
                     f'{target} < {stop}; {target} += {step})'
@@ -3748,7 +3821,9 @@ class CppEmitter(Visitor):
     def _emit_for_loop(self, stmt: ForStmt, ctx, target: str, decl: str,
                        target_def) -> None:
         """``for (<header>) { body }``."""
-        header = self._for_header(stmt.iterable, target, decl, target_def, ctx)
+        header = self._for_header(
+            stmt.iterable, target, decl, target_def, ctx, stmt.body,
+        )
         self.writer.add_line(f'{header} {{')
         self.writer.indent()
         self._visit_block(stmt.body, ctx)
